@@ -115,6 +115,9 @@ def value_alphabet(t, cfg: Cfg, ctx: dict, k_limit: int = 8) -> list:
             for n in lens:
                 if n >= 2:
                     out.append("\U0001F600" + "W" * (n - 2))
+                    # a 00 00 byte pair that straddles two code units (little endian: "W\u0100", big endian: "\u0100W")
+                    out.append("W\u0100" + "W" * (n - 2))
+                    out.append("\u0100W" + "W" * (n - 2))
         return out
     if isinstance(t, TStruct):
         if t.union:
